@@ -7,7 +7,7 @@ EXPLANATION = (
     "written addresses parse back to the numbers they were written from (cell, range, partial ranges), negative numbers count from the end, "
     "string forms are accepted wherever a position is; Row API negative positions agree with non-negative ones (KT layer). "
 )
-OUTSIDE = ("expanding getters at repeats > 2; columns of 4 or more letters (> 18277), rows > 10000 in written addresses; named ranges: symbolic table names longer than 2 characters "
+OUTSIDE = ("expanding getters at repeats > 2; columns of 4 or more letters (> 18277) and rows > 10000 in written addresses at the quick tier (thorough: up to 18277 / 10^6; the 4-letter bijection itself did not finish in 600 s and is not claimed); named ranges: symbolic table names longer than 2 characters "
            "(longer ones from a representative list), areas beyond D4, table names containing . or $ (known finding C19-namedrange-dot-dollar)")
 ASSUMPTIONS = []
 TRUSTED = _T
@@ -23,8 +23,25 @@ OBLIGATIONS = [
     _o("rt_digit_1", 6, "column numbers 0..25"), _o("rt_digit_2", 6, "column numbers 26..701"), _o("rt_digit_3", 11, "column numbers 702..18277"),
     _o("rt_alpha", 21, "1..3 upper-case letters"), _o("alpha_monotone", 2, "0 <= a < b <= 18277"),
     _o("conv_cell", 23, "x <= 701, y <= 9999"), _o("conv_range", 36, "x,z <= 25; y,t <= 99"), _o("conv_partial", 29, "x,z <= 701; y,t <= 999"),
-    _o("neg_index", 2, "unbounded length n >= 1, -n <= v < 0"), _o("nonneg_index", 2, "unbounded"), _o("any_str", 25, "x <= 701, y <= 999"),
+    _o("neg_index", 2, "unbounded length n >= 1, -n <= v < 0"), _o("nonneg_index", 2, "unbounded"), _o("neg_index_empty", 2, "length 0, -1000 <= v < 0"), _o("neg_index_wrap", 20, "length n in 1..6, -3n <= v < 0"), _o("any_str", 25, "x <= 701, y <= 999"),
 ] + [o for o in krow_obligations(1) if o.name == "krow_negative"]
+
+
+def _od(fn, secs, bounds):
+    o = _o(fn, secs, bounds)
+    o.name = fn + "@d1"
+    o.tier = "thorough"
+    o.env = {"VERIF_DEPTH": "1"}
+    o.timeout = max(300, secs * 3)
+    return o
+
+
+# thorough tier: wider ranges (VERIF_DEPTH=1)
+OBLIGATIONS += [
+    _od("alpha_monotone", 5, "0 <= a < b <= 475253 (4-letter columns)"),
+    _od("conv_cell", 260, "x <= 18277, y <= 999999"), _od("conv_range", 660, "x,z <= 701; y,t <= 9999"), _od("conv_partial", 430, "x,z <= 18277; y,t <= 999999"),
+    _od("any_str", 170, "x <= 18277, y <= 999999"),
+]
 
 from props.common import KT_ENCODES, KT_STUBS  # noqa: E402
 
@@ -60,3 +77,8 @@ OBLIGATIONS += [
     Obl(name="nr_roundtrip_dotted", module="h_nrange", func="nr_roundtrip_dotted", shadow=True, timeout=120, replay="r_h_nrange:nr_roundtrip_dotted", weight=10,
         expect="finding", finding="C19-namedrange-dot-dollar", bounds="companion of known finding C19-namedrange-dot-dollar", encodes=_NENC, stubs=_NSTUB),
 ]
+
+# thorough tier: the same reader obligations with repeats up to 3 and positions up to 6 (VERIF_DEPTH=1)
+from props.common import kget_obligations as _kg  # noqa: E402
+
+OBLIGATIONS += [o for o in _kg(['kget_area_negative_cols', 'kget_area_negative_rows', 'kget_columns_range_small']) if o.name.endswith("@d1")]
